@@ -3,6 +3,7 @@ import S2T.Lemmas.Guard
 import S2T.Gen.Encryption
 import S2T.Gen.Wrappers
 import S2T.Props.C08_PdfCrypt
+import S2T.Props.C08_PdfData
 /-!
 # C08 — Encrypted input is rejected as encrypted, plain input never is
 
@@ -481,6 +482,70 @@ example : isEpubEncrypted K ⟨["mimetype".toList, "META-INF/encryption.xml".toL
 example : isEpubEncrypted K ⟨["META-INF/encryption.xml".toList], some (.node "{urn:oasis:names:tc:opendocument:xmlns:container}encryption".toList [])⟩ = false := by decide
 example : isEpubEncrypted K ⟨["META-INF/encryption.xml".toList], none⟩ = false := by decide
 example : isEpubEncrypted K ⟨["META-INF/rights.xml".toList], none⟩ = true := by decide
+
+/-! ### the verdict does not depend on what the entries SAY (methods, keys, references, order)
+
+`encryption.xml` (EPUB) and the manifest (ODF) carry, besides the element that marks the package as encrypted, a
+description of HOW: `EncryptionMethod/@Algorithm`, key information, cipher references, checksum and key-derivation
+attributes.  A protected package may mix entries (a DRM-protected book that also ships an obfuscated font; an ODF package
+with AES-256 or an algorithm the library has never heard of): it is protected all the same.  The attributed detectors
+(`isEpubEncryptedA`, `isOdfEncryptedA`: the model the correspondence runs on the attributed trees of generated packages)
+are functions of the tag skeleton. -/
+
+/-- attributes, text, and therefore the algorithms named, are irrelevant to the EPUB verdict -/
+theorem C08_epub_content_irrelevant (C : Consts) (names : List Str) (t₁ t₂ : XmlA) (h : t₁.skeleton = t₂.skeleton) :
+    isEpubEncryptedA C names (some t₁) = isEpubEncryptedA C names (some t₂) := by
+  simp only [isEpubEncryptedA, Option.map_some, h]
+
+/-- an `EncryptedData` element below the root of encryption.xml: rejected — whatever `Algorithm` its `EncryptionMethod`
+    (or that of ANY OTHER entry, e.g. a font-obfuscation entry next to it) names, in any order, at any depth -/
+theorem C08_epub_any_method {C : Consts} (hC : EpubOk C = true) (names : List Str) (tag : Str) (attrs : List (Str × Str))
+    (text : Str) (cs : List XmlA) (hp : specEpubEncPath ∈ names) (hd : specEpubTag ∈ Xml.elemsL (XmlA.skeletonL cs)) :
+    isEpubEncryptedA C names (some (.node tag attrs text cs)) = true := by
+  unfold isEpubEncryptedA
+  exact (C08_epub hC ⟨names, some (.node tag (XmlA.skeletonL cs))⟩).mpr (Or.inl ⟨hp, tag, _, rfl, hd⟩)
+
+/-- attributes and text are irrelevant to the ODF verdict; an `encryption-data` element anywhere: rejected, whatever
+    algorithm / checksum / key derivation it declares -/
+theorem C08_odf_content_irrelevant {C : Consts} (hC : OdfOk C = true) (text : Str) (t : XmlA) :
+    isOdfEncryptedA C true (some (text, some t)) = true ↔ specOdfTag ∈ t.skeleton.elems := by
+  unfold isOdfEncryptedA
+  exact C08_odf hC text t.skeleton
+
+/-- a DRM-protected book that also declares an obfuscated font (entry order: font first) -/
+def epubDrmPlusFont : XmlA :=
+  .node "{urn:oasis:names:tc:opendocument:xmlns:container}encryption".toList [] []
+    [.node "{http://www.w3.org/2001/04/xmlenc#}EncryptedData".toList [("Id".toList, "EDfont".toList)] []
+       [.node "{http://www.w3.org/2001/04/xmlenc#}EncryptionMethod".toList
+          [("Algorithm".toList, "http://www.idpf.org/2008/embedding".toList)] [] []],
+     .node "{http://www.w3.org/2001/04/xmlenc#}EncryptedData".toList [("Id".toList, "ED1".toList)] []
+       [.node "{http://www.w3.org/2001/04/xmlenc#}EncryptionMethod".toList
+          [("Algorithm".toList, "http://www.w3.org/2001/04/xmlenc#aes128-cbc".toList)] [] []]]
+
+example : isEpubEncryptedA K ["META-INF/encryption.xml".toList] (some epubDrmPlusFont) = true := by decide
+
+/-- the class of defects: a detector that EXEMPTS a package as soon as some entry names a "harmless" algorithm -/
+def isEpubEncryptedExempting (C : Consts) (harmless : List Str) (names : List Str) (enc : Option XmlA) : Bool :=
+  isEpubEncryptedA C names enc &&
+    !(match enc with
+      | some t => (t.attrValues "Algorithm".toList).any (fun a => harmless.contains a)
+      | none => false)
+
+/-- the same book without the font entry -/
+def epubDrmOnly : XmlA :=
+  .node "{urn:oasis:names:tc:opendocument:xmlns:container}encryption".toList [] []
+    [.node "{http://www.w3.org/2001/04/xmlenc#}EncryptedData".toList [("Id".toList, "ED1".toList)] []
+       [.node "{http://www.w3.org/2001/04/xmlenc#}EncryptionMethod".toList
+          [("Algorithm".toList, "http://www.w3.org/2001/04/xmlenc#aes128-cbc".toList)] [] []]]
+
+/-- … extracts the DRM-protected book with an obfuscated font, and is indistinguishable from the detector on a book with
+    DRM entries only -/
+theorem C08_epub_exemption_counterexample :
+    isEpubEncryptedExempting K ["http://www.idpf.org/2008/embedding".toList] ["META-INF/encryption.xml".toList]
+      (some epubDrmPlusFont) = false ∧
+    isEpubEncryptedA K ["META-INF/encryption.xml".toList] (some epubDrmPlusFont) = true ∧
+    isEpubEncryptedExempting K ["http://www.idpf.org/2008/embedding".toList] ["META-INF/encryption.xml".toList]
+      (some epubDrmOnly) = true := by decide
 
 /-! ## 8. PDF: the decision built on pypdf's `decrypt('')` -/
 
